@@ -13,11 +13,13 @@ import (
 	"os"
 	"sort"
 	"strings"
+	"sync"
 	"time"
 
 	"github.com/btcsuite/btcd/blockchain"
 
 	"verif/harness/internal/tla"
+	"verif/harness/internal/vrun"
 )
 
 // compact turns the specification's <<exponent, sign, mantissa>> into the
@@ -152,6 +154,17 @@ func verdictOK(err error, broken []string) bool {
 		return len(broken) == 0
 	}
 	return len(intersect(names, broken)) > 0
+}
+
+var sampled sync.Map
+
+// sampleOnce records one written-out case per kind in the evidence.
+func sampleOnce(c *vrun.Ctx, kind string, v map[string]any) {
+	if _, dup := sampled.LoadOrStore(kind, true); dup {
+		return
+	}
+	v["kind"] = kind
+	c.Sample(v)
 }
 
 // dotStates streams the node lines of a TLC "-dump dot" file and calls fn
